@@ -144,6 +144,7 @@ theorem text_fill_clip (c : VgaText.Cons) (fb : Array UInt16) (ok : TextOk c fb)
   have hH : c.height ≤ c.width * c.height := Nat.le_mul_of_pos_left _ w1
   have hcx : ∀ x n, VgaText.clampOrigin x n = clamp x n := fun _ _ => rfl
   unfold VgaText.fill
+  rw [if_neg (by omega)]
   simp only [hcx, textFill, fillRect]
   have rx := @clamp_range x c.width w1
   have ry := @clamp_range y c.height h1
@@ -377,6 +378,8 @@ theorem pix_fill_clip (c : VesaFb.Cons) (f : VesaFb.Font) (fb : Array UInt8) (ok
     have := Nat.le_mul_of_pos_right c.rows ok.gh1; omega
   unfold VesaFb.fill
   rw [ok.font]
+  simp only []
+  rw [if_neg (by have := ok.cols1; have := ok.rows1; omega)]
   simp only [hcx, hc1, pixFill, fillRect, hc2]
   rw [pix_clip_eq rx hcols, pix_clip_eq ry hrows]
   have ex : min (clamp x c.cols - 1 + w) c.cols = clamp x c.cols - 1 + min w (c.cols - clamp x c.cols + 1) := by omega
@@ -732,6 +735,21 @@ theorem padding_untouched (c : VesaFb.Cons) (f : VesaFb.Font) (fb : Array UInt8)
           · rw [if_neg (by omega)]
           · rfl
       · rfl
+
+/-- **fill_clip on an empty grid** — a console without cells (a font whose glyphs are wider or
+taller than the text area gives `cols = 0` or `rows = 0`) ignores every `Fill`, for all arguments:
+nothing changes, no panic.  (`Write` and `Scroll` on an empty grid are covered by
+`pix_write_outside` and by the `lines > rows` case of the models.) -/
+theorem fill_empty_grid (tc : VgaText.Cons) (tfb : Array UInt16) (pc : VesaFb.Cons) (pfb : Array UInt8)
+    (x y w h fg bg : Nat) :
+    (tc.width = 0 ∨ tc.height = 0 → VgaText.fill tc tfb x y w h fg bg = some tfb) ∧
+    (pc.cols = 0 ∨ pc.rows = 0 → VesaFb.fill pc pfb x y w h fg bg = some pfb) := by
+  constructor
+  · intro h0; unfold VgaText.fill; rw [if_pos h0]
+  · intro h0; unfold VesaFb.fill
+    cases pc.font with
+    | none => rfl
+    | some f => simp only [if_pos h0]
 
 /-! ## colour packing -/
 
